@@ -97,6 +97,16 @@ def real_saturating(chk, tier, own):
               edges=[zoo.E("s.out", "w0.in"), zoo.E("s.out", "w1.in")], ctl={"ALL.sleep": "0.03"})
     pp["procs"][1]["prepend"] = "env VERIF_PREPENDED=1"; pp["procs"][2]["prepend"] = "env VERIF_PREPENDED=2"
     insts.append(pp)
+    # Go-function tasks (CustomExecute) beside shell tasks, one slot and several slots, several cores per Go-function task
+    insts.append(dict(name="SATGO1", max=1, bufsize=4, procs=[zoo.src("s", zoo.items(6)), zoo.cmd("g", ["in"], ["out"], kind="gofunc")],
+                      edges=[zoo.E("s.out", "g.in")], ctl={"ALL.sleep": "0.05"}))
+    insts.append(dict(name="SATGO4", max=4, bufsize=4, procs=[zoo.src("s", zoo.items(5)), zoo.cmd("g", ["in"], ["out"], cores=2, kind="gofunc"), zoo.cmd("w", ["x"], ["out"]),
+                                                               zoo.cmd("v", ["in"], ["out"], cores=1)],
+                      edges=[zoo.E("s.out", "g.in"), zoo.E("g.out", "w.x"), zoo.E("s.out", "v.in")], ctl={"ALL.sleep": "0.05"}))
+    # more cores per task than the machine has CPUs (the slots are an accounting device, not CPU affinity)
+    ncpu = os.cpu_count() or 16
+    insts.append(dict(name="SATBIG", max=2 * ncpu + 8, bufsize=4, procs=[zoo.src("s", zoo.items(4)), zoo.cmd("big", ["in"], ["out"], cores=ncpu + 8), zoo.cmd("one", ["in"], ["out"], cores=1)],
+                      edges=[zoo.E("s.out", "big.in"), zoo.E("s.out", "one.in")], ctl={"ALL.sleep": "0.05"}))
     # re-run shape: some outputs exist already (skipped tasks must not touch the slots)
     pre = saturating_instance(rng, 99); pre["pre"] = ["w0.out_2", "w0.out_3"]; insts.append(pre)
     # streaming producer/consumer pairs compete for the slots like everybody else
@@ -120,8 +130,8 @@ def real_saturating(chk, tier, own):
         chk.evaluations += len(rrs)
         ninst = norm_inst(inst)
         ntasks = sum(len(p["items"]) for p in ninst["procs"]) * max(1, len(ninst["procs"]) - 1)
-        if ntasks * min(p["cores"] for p in ninst["procs"] if p["kind"] == "cmd") > ninst["max"]:
-            chk.nontrivial.add(json.dumps([ninst["max"], sorted(p["cores"] for p in ninst["procs"] if p["kind"] == "cmd"), ntasks]))
+        if ntasks * min(p["cores"] for p in ninst["procs"] if p["kind"] in ("cmd", "gofunc")) > ninst["max"]:
+            chk.nontrivial.add(json.dumps([ninst["max"], sorted(p["cores"] for p in ninst["procs"] if p["kind"] in ("cmd", "gofunc")), ntasks]))
         for rr in rrs:
             if rr.timeout or rr.deadlock:
                 msg = "saturating workload %s (max=%d) did not finish: %s" % (inst["name"], inst["max"], "Go runtime deadlock report" if rr.deadlock else "timeout")
@@ -239,7 +249,7 @@ def rendezvous_scenarios(chk, tier):
                 chk.nontrivial.add("rdv:%s" % json.dumps(case))
     chk.sample(dict(kind="rendezvous", cases=cases[:5]))
 
-def shared_output_scenario(chk):
+def shared_output_scenario(chk, what="one slot, two tasks mapping to the same output file: after the first finished the slot never became free again and the downstream task never ran"):
     """two processes whose tasks map to the same output file compete for ONE slot: the loser waits while the file appears.
     Whatever it then does (run again or skip), the slot must come back: the consumer of both must still get its turn."""
     for order in ("0.3", "0.05"):
@@ -252,13 +262,28 @@ def shared_output_scenario(chk):
         for rr in fc.real_runs(inst, [dict(env={}, bufsize=2, timeout=25), dict(env={"VERIF_JITTER": "5"}, bufsize=2, timeout=25)]):
             chk.evaluations += 1
             if rr.timeout or rr.deadlock:
-                chk.violation("one slot, two tasks mapping to the same output file: after the first finished the slot never became free again and the "
-                              "downstream task never ran (%s)" % ("Go runtime deadlock report" if rr.deadlock else "timeout"),
+                chk.violation(what + " (%s)" % ("Go runtime deadlock report" if rr.deadlock else "timeout"),
                               dict(instance=inst, stderr=rr.stderr[-600:]))
             elif rr.rc != 0 or not rr.completed:
                 chk.undecided.append("shared-output scenario failed rc=%s %s" % (rr.rc, rr.stderr[-200:]))
             else:
                 chk.nontrivial.add("shared-output:" + order)
+
+def behind_slow_head_scenario(chk):
+    """5 tasks of one process, 3 slots: task 1 can only finish together with tasks 4 and 5 (rendez-vous), tasks 2 and 3 are quick.
+    When 2 and 3 have ended, 1 + 4 + 5 fit into the slots together, so 4 and 5 must be started although the OLDEST started task
+    (1) has not finished yet."""
+    inst = dict(name="WINDOW", max=3, bufsize=8, procs=[zoo.src("s", zoo.items(5)), zoo.cmd("w", ["in"], ["out"])], edges=[zoo.E("s.out", "w.in")],
+                ctl={"w:1.rendezvous": "g", "w:4.rendezvous": "g", "w:5.rendezvous": "g", "rendezvous.g.n": "3"})
+    for rr in fc.real_runs(inst, [dict(env={}, bufsize=8, timeout=40), dict(env={"VERIF_JITTER": "3"}, bufsize=1, timeout=40)]):
+        chk.evaluations += 1
+        if rr.rc != 0 or not rr.completed:
+            timed = [r for r in rr.cmdlog if r["tag"] == "T"]
+            chk.violation("three 1-core tasks that fit into three free slots did not execute simultaneously: two finished tasks were waiting behind the oldest "
+                          "started task of their process and no further task was started (%s)" % ("rendez-vous timed out" if timed else "rc=%s %s" % (rr.rc, rr.stderr[-200:])),
+                          dict(instance=inst, cmdlog=rr.cmdlog))
+        else:
+            chk.nontrivial.add("window")
 
 def oversize_scenarios(chk):
     cases = []
@@ -294,5 +319,6 @@ def check_C07(tier):
     rendezvous_scenarios(chk, tier)
     oversize_scenarios(chk)
     shared_output_scenario(chk)
+    behind_slow_head_scenario(chk)
     real_saturating(chk, tier, {"C07"})
     return chk.finish()
